@@ -53,6 +53,12 @@ FAMILIES = {
     "repeat_nonblock": lambda n, L, v: wrap("".join(["do " + lab(L, i) + " i = 1, 2\n" + lab(L, i) + " " + v + " = 1\n" for i in range(n)])),
     "repeat_nonblock_comments": lambda n, L, v: wrap("".join(["! loop %d\ndo " % i + lab(L, i) + " i = 1, 2\n" + lab(L, i) + " " + v + " = 1\n" for i in range(n)])),
     "if_comments": lambda n, L, v: nest(lambda i: "! level %d\nif (a > %d) then\n" % (i, i), lambda i: "end if ! %d\n" % i, n, v + " = 1\n"),
+    "not_nest": lambda n, L, v: wrap(v + " = " + "b .and. .not. (" * n + "a" + ")" * n + "\n"),
+    "arith_nest": lambda n, L, v: wrap(v + " = " + "a + (b * " * n + "c" + ")" * n + "\n"),
+    "power_nest": lambda n, L, v: wrap(v + " = " + "a ** (-b ** " * n + "c" + ")" * n + "\n"),
+    "concat_nest": lambda n, L, v: wrap(v + " = " + "'s' // (t // " * n + "u" + ")" * n + "\n"),
+    "arrcons_nest": lambda n, L, v: wrap(v + " = " + "(/ 1, " * n + "2" + " /)" * n + "\n"),
+    "rel_nest": lambda n, L, v: wrap(v + " = " + "a == (b /= " * n + "c" + ")" * n + "\n"),
     "expr_chain": lambda n, L, v: wrap(v + " = " + " + ".join(["a%d" % i for i in range(n + 1)]) + "\n"),
     "do_nonblock": lambda n, L, v: nest(lambda i: "do " + lab(L, i) + " i%d = 1, 2\n" % i, lambda i: lab(L, i) + " x%d = 1\n" % i, n, v + " = 1\n"),
     "call_nest": lambda n, L, v: wrap(v + " = " + "f(" * n + "1" + ")" * n + "\n"),
